@@ -276,6 +276,8 @@ func (e *Engine) resolveType(t *STypeExpr) RType {
 			return RType{nil, ArraySort(SAny, SAny)}
 		case "AnyElems":
 			return RType{nil, ArraySort(SInt, ArraySort(SInt, SAny))}
+		case "AddrElems":
+			return RType{nil, ArraySort(SInt, ArraySort(SInt, SAddr))}
 		case "any":
 			ty := types.Universe.Lookup("any").Type()
 			return RType{ty, SAny}
